@@ -175,7 +175,11 @@ class Sched:
                 pass
             except BaseException as x:  # noqa - thread death is an observation
                 if not sched.killing:
-                    t.died = (type(x).__name__, str(x)[:200], _pyro_frame(x))
+                    try:
+                        text = str(x)[:200]
+                    except BaseException:  # noqa - an exception of the workload that cannot be rendered
+                        text = "<cannot be rendered>"
+                    t.died = (type(x).__name__, text, _pyro_frame(x))
                     sched.deaths.append(t)
                     sched.ev("died", t.idx, type(x).__name__)
             finally:
